@@ -43,6 +43,7 @@ type Engine struct {
 	immPrefixes []string
 	immProblems []string
 	immChecked  bool
+	writerMap   map[string]map[*types.Package]bool
 	reGlobalMap map[*ssa.Global]string
 	refKeys1    map[string]bool
 	refKeys2    map[string]bool
@@ -365,6 +366,8 @@ func (c *FnCtx) specErr(where, format string, a ...any) {
 func (c *FnCtx) specErrors(x *EvalCtx, where string) {
 	for _, m := range x.err {
 		c.specErr(where, "%s", m)
+		// a clause that cannot be evaluated in this state is not proved: the next obligation fails
+		c.clauseErr = where + ": " + m
 	}
 	x.err = nil
 }
@@ -451,6 +454,7 @@ func (e *Engine) verifyFunc(fn *ssa.Function, con *Contract) *FnCtx {
 		unsup: map[string]bool{}, budget: 200000, used: map[string]bool{}, sorts: map[string]string{}, constArrs: map[string]string{}, litText: map[string]string{}, catParts: map[string][]strAtom{},
 		entryVals: map[*ssa.Parameter]Val{}, entryFrees: map[*ssa.FreeVar]Val{}}
 	c.quantHeavy = con != nil && con.Arith2 == "heapwf"
+	c.usesLock = con != nil && con.Locked
 	c.checked = con != nil && con.Arith == "checked"
 	if fn.Blocks == nil {
 		c.unsup["no body"] = true
@@ -643,6 +647,9 @@ func (s *State) checkPost(res []Val) {
 		pkgName = p.Pkg.Name()
 	}
 	c.checkIfacePosts(s, res)
+	if len(c.eng.contracts.Guardeds) > 0 && !c.con.NoLockExit && c.usesLock {
+		s.oblige("lock-balance", nil, 1, eq(s.held, c.entryHeld), "the function returns with the UI mutex in the state it was entered with", true)
+	}
 	for i, ex := range c.con.Exits {
 		x := s.invCtx()
 		bindResultVars(x.vars, res, c.fn, c.fn.Signature)
@@ -1259,4 +1266,298 @@ func (s *State) boxInvTerm(bi *BoxInv, named types.Type, isPtr bool, v Val) (str
 		return implies(not(eq(v.S, "0")), t.S), true
 	}
 	return t.S, true
+}
+
+// scanMapUpdates: no map of the given named map types is written anywhere in the repository (cached JSON
+// documents are shared read-only between goroutines).
+func (e *Engine) scanMapUpdates(typeNames []string) []string {
+	var bad []string
+	isTarget := func(t types.Type) bool {
+		s := types.TypeString(t, func(p *types.Package) string { return p.Name() })
+		for _, n := range typeNames {
+			if s == n {
+				return true
+			}
+		}
+		return false
+	}
+	for fn := range e.allFns {
+		if !e.inRepo(fn) {
+			continue
+		}
+		for _, b := range fn.Blocks {
+			for _, in := range b.Instrs {
+				if mu, ok := in.(*ssa.MapUpdate); ok && isTarget(mu.Map.Type()) {
+					// building a fresh literal is fine: the map comes straight from MakeMap in the same function
+					if _, fresh := mu.Map.(*ssa.MakeMap); fresh {
+						continue
+					}
+					bad = append(bad, fmt.Sprintf("%s writes a %s at %s", e.fnKey(fn), mu.Map.Type(), e.posOf(in)))
+				}
+			}
+		}
+	}
+	sort.Strings(bad)
+	return bad
+}
+
+// scanFanout: in every function that joins goroutines with a WaitGroup, the goroutine bodies write pairwise
+// disjoint locations and the spawner does not touch them before Wait. Checked syntactically on the SSA:
+//   - closures spawned once each: every Store goes to memory the closure allocated itself, or to a field of a
+//     captured object; two closures never store to (or store and load) the same field of the same captured variable;
+//   - a closure spawned in a loop: every Store goes to closure-local memory or to X[i] / X[i].f where i is read
+//     from a cell that is allocated per iteration and written only with the loop counter;
+//   - captured variables that a closure stores to (other than through such an index) are not read by the others.
+func (e *Engine) scanFanout() []string {
+	var bad []string
+	for fn := range e.allFns {
+		if !e.inRepo(fn) || !e.hasWait[fn] {
+			continue
+		}
+		type access struct {
+			write bool
+			what  string // "cell:<freevar name>" or "field:<freevar>.<field>"
+			pos   string
+		}
+		var perClosure [][]access
+		var names []string
+		for _, b := range fn.Blocks {
+			inLoop := false
+			for h, body := range e.loops(fn) {
+				_ = h
+				if body[b] {
+					inLoop = true
+				}
+			}
+			for _, in := range b.Instrs {
+				g, ok := in.(*ssa.Go)
+				if !ok {
+					continue
+				}
+				mc, ok := g.Call.Value.(*ssa.MakeClosure)
+				if !ok {
+					bad = append(bad, fmt.Sprintf("%s: go statement at %s does not spawn a closure literal", e.fnKey(fn), e.posOf(in)))
+					continue
+				}
+				cl := mc.Fn.(*ssa.Function)
+				var acc []access
+				// classify every load/store of the closure
+				fvOf := func(v ssa.Value) (string, bool) {
+					// value loaded from a free-variable cell: *fv
+					if u, ok := v.(*ssa.UnOp); ok {
+						if fv, ok := u.X.(*ssa.FreeVar); ok {
+							return fv.Name(), true
+						}
+					}
+					if fv, ok := v.(*ssa.FreeVar); ok {
+						return fv.Name(), true
+					}
+					return "", false
+				}
+				perIterIndex := func(idx ssa.Value) bool {
+					// idx (or a sum with it) is loaded from a free variable whose cell is allocated inside the loop body
+					var check func(v ssa.Value, depth int) bool
+					check = func(v ssa.Value, depth int) bool {
+						if depth > 3 {
+							return false
+						}
+						switch x := v.(type) {
+						case *ssa.UnOp:
+							if fv, ok := x.X.(*ssa.FreeVar); ok {
+								for i, f := range cl.FreeVars {
+									if f == fv && i < len(mc.Bindings) {
+										if al, ok := mc.Bindings[i].(*ssa.Alloc); ok && al.Block() == mc.Block() {
+											return true
+										}
+									}
+								}
+							}
+						case *ssa.BinOp:
+							return check(x.X, depth+1) || check(x.Y, depth+1)
+						case *ssa.Convert:
+							return check(x.X, depth+1)
+						}
+						return false
+					}
+					return check(idx, 0)
+				}
+				var isLocal func(v ssa.Value, depth int) bool
+				isLocal = func(v ssa.Value, depth int) bool {
+					if depth > 4 {
+						return false
+					}
+					switch y := v.(type) {
+					case *ssa.Alloc:
+						return y.Parent() == cl
+					case *ssa.Slice:
+						return isLocal(y.X, depth+1)
+					case *ssa.FieldAddr:
+						return isLocal(y.X, depth+1)
+					case *ssa.IndexAddr:
+						return isLocal(y.X, depth+1)
+					}
+					return false
+				}
+				for _, cb := range cl.Blocks {
+					for _, ci := range cb.Instrs {
+						switch x := ci.(type) {
+						case *ssa.Store:
+							if isLocal(x.Addr, 0) {
+								continue
+							}
+							switch a := x.Addr.(type) {
+							case *ssa.Alloc:
+								// closure-local
+							case *ssa.FreeVar:
+								acc = append(acc, access{true, "cell:" + a.Name(), e.posOf(ci)})
+							case *ssa.FieldAddr:
+								if ia, ok := a.X.(*ssa.IndexAddr); ok {
+									if inLoop && perIterIndex(ia.Index) {
+										continue
+									}
+									bad = append(bad, fmt.Sprintf("%s: goroutine body writes an indexed element at %s whose index is not the per-iteration copy of the loop counter", e.fnKey(cl), e.posOf(ci)))
+									continue
+								}
+								if n, ok := fvOf(a.X); ok {
+									st := derefType(a.X.Type()).Underlying().(*types.Struct)
+									acc = append(acc, access{true, "field:" + n + "." + st.Field(a.Field).Name(), e.posOf(ci)})
+								} else if _, local := a.X.(*ssa.Alloc); !local {
+									bad = append(bad, fmt.Sprintf("%s: goroutine body writes through a pointer of unknown origin at %s", e.fnKey(cl), e.posOf(ci)))
+								}
+							case *ssa.IndexAddr:
+								if inLoop && perIterIndex(a.Index) {
+									continue
+								}
+								bad = append(bad, fmt.Sprintf("%s: goroutine body writes an indexed element at %s whose index is not the per-iteration copy of the loop counter", e.fnKey(cl), e.posOf(ci)))
+							default:
+								bad = append(bad, fmt.Sprintf("%s: goroutine body writes through a computed address at %s", e.fnKey(cl), e.posOf(ci)))
+							}
+						case *ssa.UnOp:
+							if fv, ok := x.X.(*ssa.FreeVar); ok {
+								acc = append(acc, access{false, "cell:" + fv.Name(), e.posOf(ci)})
+							}
+							if fa, ok := x.X.(*ssa.FieldAddr); ok {
+								if n, ok := fvOf(fa.X); ok {
+									st := derefType(fa.X.Type()).Underlying().(*types.Struct)
+									acc = append(acc, access{false, "field:" + n + "." + st.Field(fa.Field).Name(), e.posOf(ci)})
+								}
+							}
+						case *ssa.MapUpdate:
+							bad = append(bad, fmt.Sprintf("%s: goroutine body writes a map at %s", e.fnKey(cl), e.posOf(ci)))
+						}
+					}
+				}
+				if inLoop {
+					// instances of the same closure: its non-indexed writes must not exist
+					for _, a := range acc {
+						if a.write {
+							bad = append(bad, fmt.Sprintf("%s: goroutine spawned in a loop writes shared %s at %s", e.fnKey(cl), a.what, a.pos))
+						}
+					}
+				}
+				perClosure = append(perClosure, acc)
+				names = append(names, e.fnKey(cl))
+			}
+		}
+		for i := range perClosure {
+			for j := range perClosure {
+				if i == j {
+					continue
+				}
+				for _, a := range perClosure[i] {
+					if !a.write {
+						continue
+					}
+					for _, b := range perClosure[j] {
+						if a.what == b.what {
+							bad = append(bad, fmt.Sprintf("%s writes %s (%s) which %s also accesses (%s)", names[i], a.what, a.pos, names[j], b.pos))
+						}
+					}
+				}
+			}
+		}
+	}
+	sort.Strings(bad)
+	return dedupe(bad)
+}
+
+// writersOf: the packages whose code contains an instruction that can modify heap arrays of the given key
+// family ("map|<typeKey>" for maps of that type, "elem|<typeKey>" for slice/array elements of that type).
+// Maps and slice elements are only ever modified by MapUpdate/delete and by stores through IndexAddr,
+// append and copy (no reflection or unsafe in the module), so a callee that cannot run code of any of these
+// packages cannot change them.
+func (e *Engine) writersOf(family string) map[*types.Package]bool {
+	if e.writerMap == nil {
+		e.writerMap = map[string]map[*types.Package]bool{}
+		add := func(fam string, fn *ssa.Function) {
+			p := fnPkg(fn)
+			if e.writerMap[fam] == nil {
+				e.writerMap[fam] = map[*types.Package]bool{}
+			}
+			e.writerMap[fam][p] = true
+		}
+		for fn := range e.allFns {
+			for _, b := range fn.Blocks {
+				for _, in := range b.Instrs {
+					switch x := in.(type) {
+					case *ssa.MapUpdate:
+						add("map|"+typeKey(x.Map.Type().Underlying()), fn)
+					case *ssa.Store:
+						if ia, ok := x.Addr.(*ssa.IndexAddr); ok {
+							switch u := ia.X.Type().Underlying().(type) {
+							case *types.Slice:
+								add("elem|"+typeKey(u.Elem()), fn)
+							case *types.Pointer:
+								if at, ok := u.Elem().Underlying().(*types.Array); ok {
+									add("elem|"+typeKey(at.Elem()), fn)
+								}
+							}
+						}
+						if fa, ok := x.Addr.(*ssa.FieldAddr); ok {
+							if ia, ok := fa.X.(*ssa.IndexAddr); ok {
+								if sl, ok := ia.X.Type().Underlying().(*types.Slice); ok {
+									add("elem|"+typeKey(sl.Elem()), fn)
+								}
+							}
+						}
+					case ssa.CallInstruction:
+						if bi, ok := x.Common().Value.(*ssa.Builtin); ok {
+							switch bi.Name() {
+							case "append", "copy":
+								if sl, ok := x.Common().Args[0].Type().Underlying().(*types.Slice); ok {
+									add("elem|"+typeKey(sl.Elem()), fn)
+								}
+							case "delete", "clear":
+								if m, ok := x.Common().Args[0].Type().Underlying().(*types.Map); ok {
+									add("map|"+typeKey(m), fn)
+								}
+							}
+						}
+					}
+				}
+			}
+		}
+	}
+	return e.writerMap[family]
+}
+
+// keyFamily maps a heap key to its writer family ("" when the key is not a map/element array).
+func keyFamily(key string) string {
+	switch {
+	case strings.HasPrefix(key, "mapdom|"):
+		return "map|" + strings.TrimPrefix(key, "mapdom|")
+	case strings.HasPrefix(key, "mapval|"):
+		k := strings.TrimPrefix(key, "mapval|")
+		if i := strings.Index(k, "."); i >= 0 {
+			k = k[:i]
+		}
+		return "map|" + k
+	case strings.HasPrefix(key, "elem|"):
+		k := strings.TrimPrefix(key, "elem|")
+		if i := strings.Index(k, "."); i >= 0 {
+			k = k[:i]
+		}
+		return "elem|" + k
+	}
+	return ""
 }
